@@ -390,7 +390,10 @@ impl IntColBuffer {
         self.max = cmp::max(elem, self.max);
         if elem > self.last {
             self.increasing += 1;
-        } else if elem.checked_sub(self.last).is_none() {
+        }
+        // The delta transform subtracts neighbours: rule it out when a step does not fit in i64,
+        // whichever direction it goes
+        if !self.data.is_empty() && elem.checked_sub(self.last).is_none() {
             self.allow_delta_encode = false;
         };
         self.last = elem;
